@@ -2,9 +2,9 @@
 
    Mirrors, branch by branch:
      core/state_processor.go : ProcessQiTx, CheckDenominations          (process_qi, check_denominations)
-     core/worker.go          : (*worker).processQiTx + the firstQiTx /
+     core/worker.go          : worker.processQiTx + the firstQiTx /
                                error-class handling of commitTransactions (worker_qi, worker_txs)
-     core/state_processor.go : ValidateQiTxInputs (ownership part)       (mempool_inputs_ok)
+     core/state_processor.go : ValidateQiTxInputs                        (validate_inputs)
      core/rawdb/accessors_chain.go : GetUTXOWithBatch / GetUTXO / CreateUTXO / DeleteUTXO
      ethdb batches           : SetPending / GetPending                   (view, v_get, v_del, v_put, commit)
    Definitions only; lemmas are in Proofs/C01*.v, theorems in Props/C01.v.
@@ -20,7 +20,9 @@
        header (QiToQuai x = R*x/Q, exact big.Int arithmetic) -> c_quai_reward, c_qi_reward
      - proto encoding of a UTXO entry in the DB            -> the record [utxo] itself
    Addresses are 20-byte strings (list N); an outpoint is the 34-byte string
-   txhash ++ bigendian16(index) = rawdb.UtxoKey without its "ut" prefix. *)
+   txhash ++ bigendian16(index) = rawdb.UtxoKey without its "ut" prefix.
+   A failing ProcessQiTx leaves a half-written batch behind; StateProcessor.Process
+   then rejects the block and the batch is dropped, so an error carries no store. *)
 From Coq Require Import List NArith Bool.
 From GQ Require Import Lib.Key Lib.SMap Generated.C01Params.
 Import ListNotations.
@@ -35,7 +37,7 @@ Definition two64 : N := 18446744073709551616.
 
 Inductive result (A : Type) :=
 | Ok (a : A)
-| Err (e : N) (gp : N).   (* error class, and the gas pool at the point of failure (only the worker keeps using it) *)
+| Err (e : N) (gp : N).   (* error class; gas pool at the point of failure (only the worker goes on using it) *)
 Arguments Ok {A} a.
 Arguments Err {A} e gp.
 
@@ -49,7 +51,7 @@ Arguments st_get {S} _ _ _.
 Arguments st_del {S} _ _ _.
 Arguments st_put {S} _ _ _ _.
 
-(* -- the committed ledger alone (rawdb.GetUTXO / a flat map): reference store *)
+(* -- the committed ledger alone (a flat map): reference store *)
 Definition ledger_store : store ledger :=
   mkStore ledger (fun l k => get k l) (fun l k => del k l) (fun l k u => put k u l).
 
@@ -142,7 +144,7 @@ Definition sum_den (ds : list N) : N := fold_right (fun d acc => den_value d + a
 
 Definition count (d : N) (l : list N) : N := len (filter (N.eqb d) l).
 
-(* loop for i := MaxDenomination; i >= 1; i--  (uint64 arithmetic written out) *)
+(* for i := MaxDenomination; i >= 1; i--   (uint64 arithmetic written out) *)
 Fixpoint check_den_loop (i : nat) (carry : N) (ins outs : list N) : bool :=
   match i with
   | O => true
@@ -157,6 +159,18 @@ Fixpoint check_den_loop (i : nat) (carry : N) (ins outs : list N) : bool :=
   end.
 Definition check_denominations (ins outs : list N) : bool :=
   check_den_loop (N.to_nat max_denomination) 0 ins outs.
+
+(* ------------------------------------------------------------------ error classes
+   1 no inputs  2 chain id  3 data length  4 wrap target not Quai  5 refund not Qi
+   6 gas pool (intrinsic)  7 block gas limit
+   10 unknown/spent outpoint  11 locked  12 key address not Qi  13 wrong key  14 unparsable key  15 input denomination
+   16 worker: entry owned by Quai address   17 worker: double spend (deletedUtxos)
+   20 too many outputs  21 output denomination  22 output lock  23 address reuse  24 two convert targets
+   25 wrap owner not internal Quai  26 Quai address in other zone  27 region limit  28 prime limit
+   29 ineligible slice  39 gas pool (etx)
+   30 out > in  31 required gas overflow  32 fee below floor  33 kawpow hold  34 sha hold  35 convert+wrap
+   36 fee below conversion floor  37 prime limit (conversion)  38 gas pool (conversion etx)
+   40 denominations merge up  41 signature  42 worker: block gas limit *)
 
 (* ------------------------------------------------------------------ the pure part: outputs, fee, ETXs *)
 
@@ -174,31 +188,411 @@ Record oacc := mkOA {
   oa_rgas : N; oa_pgas : N
 }.
 
-(* error classes (N):
-   1 no inputs  2 chain id  3 data length  4 wrap target not Quai  5 refund not Qi
-   6 gas pool (intrinsic)  7 block gas limit
-   10 unknown/spent outpoint  11 locked  12 key address not Qi  13 wrong key  14 unparsable key  15 input denomination
-   16 worker: entry owned by Quai address   17 worker: double spend (deletedUtxos)
-   20 too many outputs  21 output denomination  22 output lock  23 address reuse  24 two convert targets
-   25 wrap owner not internal Quai  26 Quai address in other zone  27 region limit  28 prime limit
-   29 ineligible slice  39 gas pool (etx)
-   30 out > in  31 required gas overflow  32 fee below floor  33 kawpow hold  34 sha hold  35 convert+wrap
-   36 fee below conversion floor  37 prime limit (conversion)  38 gas pool (conversion etx)
-   40 denominations merge up  41 signature  42 worker: block gas limit *)
-
-Definition set_loop (a : oacc) (idx : N) (addrs : list (list N)) (total : N) (dens : list N) : oacc :=
-  mkOA idx addrs total (oa_conv a) (oa_isconv a) (oa_iswrap a) (oa_caddr a) dens (oa_etxs a)
-       (oa_creates a) (oa_gp a) (oa_used a) (oa_rgas a) (oa_pgas a).
-
-(* the tail of one iteration of the output loop: emit an ETX or create a local UTXO.
-   [worker] only changes which of two failing checks is reached first (SubGas before the
-   eligibility test in worker.go) -- visible only through the gas pool left after a failure. *)
-Definition out_emit (worker : bool) (c : ctx) (t : tx) (a : oacc) (o : txout) : result oacc :=
+(* tail of one iteration of the output loop: emit an ETX or create a local UTXO.
+   [worker] only swaps two failing checks (worker.go: SubGas before the eligibility test),
+   visible only through the gas pool left behind by a failure. [a] already has the
+   address set / totals of this iteration; its index is still the current one. *)
+Definition out_emit (worker : bool) (c : ctx) (rl pl : N) (t : tx) (a : oacc) (o : txout) : result oacc :=
   let to := o_addr o in
+  let gp := oa_gp a in
   if negb (is_local c to) then
+    (* toAddr.Location().CommonDom(location).Context(): REGION when the regions agree, PRIME otherwise *)
     let sameregion := a_region to =? c_region c in
     let rgas := if sameregion then oa_rgas a + tx_gas else oa_rgas a in
     let pgas := if sameregion then oa_pgas a else oa_pgas a + tx_gas in
-    if c_rlim_cur a <? rgas then Err 27 (oa_gp a)
-    else Err 0 0
-  else Err 0 0.
+    if rl <? rgas then Err 27 gp
+    else if pl <? pgas then Err 28 gp
+    else if negb (is_qi to) then Err 26 gp
+    else
+      let e := mkEtx etx_default_type to (o_den o) (oa_idx a) tx_gas in   (* Value carries the denomination index *)
+      let ok := mkOA (oa_idx a + 1) (oa_addrs a) (oa_total a) (oa_conv a) (oa_isconv a) (oa_iswrap a) (oa_caddr a)
+                     (oa_dens a) (oa_etxs a ++ [e]) (oa_creates a) (gp - etx_gas) (oa_used a + etx_gas) rgas pgas in
+      if worker then
+        if gp <? etx_gas then Err 39 gp
+        else if negb (eligible c to) then Err 29 (gp - etx_gas)
+        else Ok ok
+      else
+        if negb (eligible c to) then Err 29 gp
+        else if gp <? etx_gas then Err 39 gp
+        else Ok ok
+  else
+    (* types.NewUtxoEntry(&txOut); rawdb.CreateUTXO(batch, tx.Hash(), idx, utxo) *)
+    Ok (mkOA (oa_idx a + 1) (oa_addrs a) (oa_total a) (oa_conv a) (oa_isconv a) (oa_iswrap a) (oa_caddr a)
+             (oa_dens a) (oa_etxs a) (oa_creates a ++ [(outkey (t_hash t) (oa_idx a), mkU (o_den o) to 0)])
+             gp (oa_used a) (oa_rgas a) (oa_pgas a)).
+
+Definition out_step (worker : bool) (c : ctx) (rl pl : N) (t : tx) (a : oacc) (o : txout) : result oacc :=
+  let gp := oa_gp a in
+  if max_output_index <? oa_idx a then Err 20 gp
+  else if max_denomination <? o_den o then Err 21 gp
+  else if negb (o_lock o =? 0) then Err 22 gp
+  else
+    let total := oa_total a + den_value (o_den o) in
+    let to := o_addr o in
+    if amem to (oa_addrs a) then Err 23 gp
+    else
+      let dlen := len (t_data t) in
+      (* after: addresses[to] = {}, outputs[den]++ *)
+      let a1 := mkOA (oa_idx a) (to :: oa_addrs a) total (oa_conv a) (oa_isconv a) (oa_iswrap a) (oa_caddr a)
+                     (o_den o :: oa_dens a) (oa_etxs a) (oa_creates a) gp (oa_used a) (oa_rgas a) (oa_pgas a) in
+      (* aggregated: totalConvertQitOut += v, outputs[den] -= 1, delete(addresses, to) *)
+      let agg (isconv iswrap : bool) :=
+          mkOA (oa_idx a) (aremove to (to :: oa_addrs a)) total (oa_conv a + den_value (o_den o)) isconv iswrap to
+               (oa_dens a) (oa_etxs a) (oa_creates a) gp (oa_used a) (oa_rgas a) (oa_pgas a) in
+      let next (x : oacc) :=
+          mkOA (oa_idx x + 1) (oa_addrs x) (oa_total x) (oa_conv x) (oa_isconv x) (oa_iswrap x) (oa_caddr x)
+               (oa_dens x) (oa_etxs x) (oa_creates x) (oa_gp x) (oa_used x) (oa_rgas x) (oa_pgas x) in
+      if is_local c to && is_quai to && (dlen =? max_qi_tx_data_length) then          (* Qi->Quai conversion *)
+        if oa_isconv a && negb (keqb to (oa_caddr a)) then Err 24 gp
+        else Ok (next (agg true (oa_iswrap a)))
+      else if is_local c to && is_quai to && (dlen =? address_length) then            (* wrapped Qi *)
+        if is_qi (t_data t) || negb (is_internal c (t_data t)) then Err 25 gp         (* ownerContract.InternalAndQuaiAddress() *)
+        else if qi_wrapping_change_block <=? c_ptn c                                  (* qiWrappingSkipsLocalUTXO *)
+             then Ok (next (agg (oa_isconv a) true))
+             else out_emit worker c rl pl t (agg (oa_isconv a) true) o                (* before the fork: also a local UTXO *)
+      else if is_quai to then Err 26 gp
+      else out_emit worker c rl pl t a1 o.
+
+Fixpoint out_loop (worker : bool) (c : ctx) (rl pl : N) (t : tx) (a : oacc) (outs : list txout) : result oacc :=
+  match outs with
+  | [] => Ok a
+  | o :: r =>
+      match out_step worker c rl pl t a o with
+      | Err e g => Err e g
+      | Ok a' => out_loop worker c rl pl t a' r
+      end
+  end.
+
+Definition in_hold (c : ctx) (fork : N) : bool :=
+  (fork <=? c_ptn c) && (c_ptn c <? fork + kquai_change_hold_interval).
+
+(* result of everything after the input loop up to (excluding) CheckDenominations / signature *)
+Record pres := mkPR {
+  p_fee : N; p_etxs : list etx; p_creates : list (key * utxo);
+  p_gp : N; p_used : N; p_rgas : N; p_pgas : N; p_outdens : list N;
+  p_total_out : N; p_conv : N; p_isconv : bool; p_iswrap : bool
+}.
+
+Definition post_inputs (worker : bool) (c : ctx) (rl pl : N) (t : tx) (gp used : N)
+           (addrs : list (list N)) (tot_in : N) : result pres :=
+  match out_loop worker c rl pl t (mkOA 0 addrs 0 0 false false [] [] [] [] gp used 0 0) (t_outs t) with
+  | Err e g => Err e g
+  | Ok a =>
+      let gp := oa_gp a in
+      if tot_in <? oa_total a then Err 30 gp else
+      let fee := tot_in - oa_total a in
+      let required := (t_intrinsic t + len (oa_etxs a) * (tx_gas + etx_gas)) mod two64 in
+      if required <? t_intrinsic t then Err 31 gp else
+      let minfee := required * c_basefee c in
+      let feequai := c_quai_reward c * fee / c_qi_reward c in                        (* misc.QiToQuai *)
+      if feequai <? minfee then Err 32 gp else
+      if oa_isconv a && in_hold c kawpow_fork_block then Err 33 gp else
+      if oa_isconv a && in_hold c sha_equivalent_difficulty_fork_block then Err 34 gp else
+      if oa_isconv a || oa_iswrap a then
+        if oa_isconv a && oa_iswrap a then Err 35 gp else
+        let required2 := required + qi_to_quai_conversion_gas in
+        let minfee2 := required2 * c_basefee c in
+        if feequai <? minfee2 then Err 36 gp else
+        let pgas := oa_pgas a + qi_to_quai_conversion_gas in
+        if pl <? pgas then Err 37 gp else
+        let gasleft := ((feequai - minfee2) / c_basefee c) mod two64 in
+        let e := mkEtx (if oa_iswrap a then etx_wrapping_qi_type else etx_conversion_type)
+                       (oa_caddr a) (oa_conv a) 0 gasleft in
+        if gp <? etx_gas then Err 38 gp else
+        Ok (mkPR fee (oa_etxs a ++ [e]) (oa_creates a) (gp - etx_gas) (oa_used a + etx_gas) (oa_rgas a) pgas
+                 (oa_dens a) (oa_total a) (oa_conv a) (oa_isconv a) (oa_iswrap a))
+      else
+        Ok (mkPR fee (oa_etxs a) (oa_creates a) gp (oa_used a) (oa_rgas a) (oa_pgas a)
+                 (oa_dens a) (oa_total a) (oa_conv a) (oa_isconv a) (oa_iswrap a))
+  end.
+
+(* the checks on tx.Data() shared by ProcessQiTx, processQiTx and ValidateQiTxInputs *)
+Definition sanity (t : tx) : option N :=
+  let dlen := len (t_data t) in
+  if len (t_ins t) =? 0 then Some 1
+  else if negb (t_chain_ok t) then Some 2
+  else if negb (dlen =? 0) && negb (dlen =? max_qi_tx_data_length) && negb (dlen =? address_length) then Some 3
+  else if (dlen =? address_length) && is_qi (t_data t) then Some 4
+  else if (dlen =? max_qi_tx_data_length) && negb (is_qi (skipn 2 (t_data t))) then Some 5
+  else None.
+
+(* ------------------------------------------------------------------ ProcessQiTx *)
+
+Record txres := mkRes {
+  r_fee : N; r_etxs : list etx; r_gas : N;
+  r_spent : list (key * utxo);        (* utxosCreatedDeleted.UtxosDeleted of this tx *)
+  r_created : list (key * utxo)       (* created local outputs of this tx *)
+}.
+
+Section Generic.
+Context {S : Type} (st : store S).
+
+Record iacc := mkIA {
+  ia_store : S; ia_addrs : list (list N); ia_total : N; ia_dens : list N; ia_spent : list (key * utxo)
+}.
+
+(* one iteration of the input loop of ProcessQiTx *)
+Definition in_step (c : ctx) (checksig : bool) (gp : N) (a : iacc) (i : txin) : result iacc :=
+  match st_get st (ia_store a) (i_op i) with
+  | None => Err 10 gp
+  | Some u =>
+      if c_height c <? u_lock u then Err 11 gp
+      else if negb (is_qi (i_pkaddr i)) then Err 12 gp
+      else if negb (keqb (i_pkaddr i) (u_owner u)) then Err 13 gp
+      else if checksig && negb (i_pkparse i) then Err 14 gp
+      else if max_denomination <? u_den u then Err 15 gp
+      else Ok (mkIA (st_del st (ia_store a) (i_op i)) (u_owner u :: ia_addrs a)
+                    (ia_total a + den_value (u_den u)) (u_den u :: ia_dens a)
+                    (ia_spent a ++ [(i_op i, u)]))
+  end.
+
+Fixpoint in_loop (c : ctx) (checksig : bool) (gp : N) (a : iacc) (ins : list txin) : result iacc :=
+  match ins with
+  | [] => Ok a
+  | i :: r =>
+      match in_step c checksig gp a i with
+      | Err e g => Err e g
+      | Ok a' => in_loop c checksig gp a' r
+      end
+  end.
+
+(* state threaded through the transactions of one block *)
+Record bst := mkB { b_store : S; b_gp : N; b_used : N; b_rlim : N; b_plim : N; b_first : bool }.
+
+Definition put_all (s : S) (cs : list (key * utxo)) : S :=
+  fold_left (fun s kv => st_put st s (fst kv) (snd kv)) cs s.
+
+Definition process_qi (c : ctx) (b : bst) (t : tx) : result (bst * txres) :=
+  match sanity t with
+  | Some e => Err e (b_gp b)
+  | None =>
+      let used1 := b_used b + t_intrinsic t in
+      if b_gp b <? t_intrinsic t then Err 6 (b_gp b) else
+      let gp1 := b_gp b - t_intrinsic t in
+      if c_gaslimit c <? used1 then Err 7 gp1 else
+      match in_loop c (t_checksig t) gp1 (mkIA (b_store b) [] 0 [] []) (t_ins t) with
+      | Err e g => Err e g
+      | Ok ia =>
+          match post_inputs false c (b_rlim b) (b_plim b) t gp1 used1 (ia_addrs ia) (ia_total ia) with
+          | Err e g => Err e g
+          | Ok p =>
+              if negb (b_first b) && negb (check_denominations (ia_dens ia) (p_outdens p)) then Err 40 (p_gp p)
+              else if t_checksig t && negb (t_sigok t) then Err 41 (p_gp p)
+              else Ok (mkB (put_all (ia_store ia) (p_creates p)) (p_gp p) (p_used p)
+                           (b_rlim b - p_rgas p) (b_plim b - p_pgas p) false,
+                       mkRes (p_fee p) (p_etxs p) (p_used p - b_used b) (ia_spent ia) (p_creates p))
+          end
+      end
+  end.
+
+(* the Qi part of StateProcessor.Process: the first failing transaction rejects the block *)
+Fixpoint run_txs (c : ctx) (b : bst) (txs : list tx) : list txres * option bst :=
+  match txs with
+  | [] => ([], Some b)
+  | t :: r =>
+      match process_qi c b t with
+      | Err _ _ => ([], None)
+      | Ok (b', res) => let '(l, o) := run_txs c b' r in (res :: l, o)
+      end
+  end.
+
+Definition init_bst (c : ctx) (s : S) : bst := mkB s (c_gaslimit c) 0 (c_rlim c) (c_plim c) true.
+
+End Generic.
+Arguments mkIA {S} _ _ _ _ _.
+Arguments ia_store {S} _.
+Arguments ia_addrs {S} _.
+Arguments ia_total {S} _.
+Arguments ia_dens {S} _.
+Arguments ia_spent {S} _.
+Arguments mkB {S} _ _ _ _ _ _.
+Arguments b_store {S} _.
+Arguments b_gp {S} _.
+Arguments b_used {S} _.
+Arguments b_rlim {S} _.
+Arguments b_plim {S} _.
+Arguments b_first {S} _.
+
+(* a block on (db, fresh batch): accepted prefix of results, verdict, ledger after (batch written iff accepted) *)
+Definition run_block (tracks : bool) (l : ledger) (c : ctx) (txs : list tx) : list txres * bool * ledger :=
+  match run_txs view_store c (init_bst c (view_of tracks l)) txs with
+  | (rs, Some b) => (rs, true, commit (b_store b))
+  | (rs, None) => (rs, false, l)
+  end.
+
+Fixpoint run_chain (tracks : bool) (l : ledger) (blocks : list (ctx * list tx)) : list (list txres * bool * ledger) :=
+  match blocks with
+  | [] => []
+  | (c, txs) :: r =>
+      let '(rs, ok, l') := run_block tracks l c txs in
+      (rs, ok, l') :: run_chain tracks l' r
+  end.
+
+(* the same block on the flat reference ledger *)
+Definition run_block_ref (l : ledger) (c : ctx) (txs : list tx) : list txres * bool * ledger :=
+  match run_txs ledger_store c (init_bst c l) txs with
+  | (rs, Some b) => (rs, true, b_store b)
+  | (rs, None) => (rs, false, l)
+  end.
+
+(* ------------------------------------------------------------------ mempool: ValidateQiTxInputs *)
+
+Definition validate_in_step (c : ctx) (l : ledger) (i : txin) : bool :=
+  match get (i_op i) l with
+  | None => false
+  | Some u =>
+      negb (c_height c <? u_lock u) && is_qi (i_pkaddr i) && keqb (i_pkaddr i) (u_owner u)
+      && negb (max_denomination <? u_den u)
+  end.
+Definition validate_inputs (c : ctx) (l : ledger) (t : tx) : bool :=
+  match sanity t with
+  | Some _ => false
+  | None =>
+      forallb (validate_in_step c l) (t_ins t)
+      && forallb (fun o => negb (max_denomination <? o_den o) && (o_lock o =? 0)) (t_outs t)
+  end.
+
+(* ------------------------------------------------------------------ worker: processQiTx *)
+
+Record wenv := mkW { w_deleted : list key; w_gp : N; w_used : N; w_rlim : N; w_plim : N }.
+
+Record wiacc := mkWI { wi_addrs : list (list N); wi_total : N; wi_dens : list N; wi_spent : list (key * utxo) }.
+
+(* input loop of processQiTx: reads the committed database only, explicit deletedUtxos set
+   (keyed by types.UTXOHash(outpoint, entry); modelled by the outpoint) which keeps the
+   entries of a transaction that fails later *)
+Fixpoint w_in_loop (c : ctx) (l : ledger) (gp : N) (deleted : list key) (a : wiacc) (ins : list txin)
+  : list key * result wiacc :=
+  match ins with
+  | [] => (deleted, Ok a)
+  | i :: r =>
+      match get (i_op i) l with
+      | None => (deleted, Err 10 gp)
+      | Some u =>
+          if c_height c <? u_lock u then (deleted, Err 11 gp)
+          else if max_denomination <? u_den u then (deleted, Err 15 gp)
+          else if negb (is_qi (u_owner u)) then (deleted, Err 16 gp)
+          else if amem (i_op i) deleted then (deleted, Err 17 gp)
+          else w_in_loop c l gp (i_op i :: deleted)
+                         (mkWI (u_owner u :: wi_addrs a) (wi_total a + den_value (u_den u))
+                               (u_den u :: wi_dens a) (wi_spent a ++ [(i_op i, u)])) r
+      end
+  end.
+
+Definition worker_qi (c : ctx) (l : ledger) (first : bool) (e : wenv) (t : tx) : wenv * result txres :=
+  match sanity t with
+  | Some err => (e, Err err (w_gp e))
+  | None =>
+      if w_gp e <? t_intrinsic t then (e, Err 6 (w_gp e)) else
+      let gp1 := w_gp e - t_intrinsic t in
+      let used1 := w_used e + t_intrinsic t in
+      let fail (deleted : list key) (err gp : N) :=
+          (mkW deleted gp (w_used e) (w_rlim e) (w_plim e), @Err txres err gp) in
+      match w_in_loop c l gp1 (w_deleted e) (mkWI [] 0 [] []) (t_ins t) with
+      | (deleted, Err err g) => fail deleted err g
+      | (deleted, Ok ia) =>
+          match post_inputs true c (w_rlim e) (w_plim e) t gp1 used1 (wi_addrs ia) (wi_total ia) with
+          | Err err g => fail deleted err g
+          | Ok p =>
+              if c_gaslimit c <? p_used p then fail deleted 42 (p_gp p)
+              else if negb first && negb (check_denominations (wi_dens ia) (p_outdens p)) then fail deleted 40 (p_gp p)
+              else (mkW deleted (p_gp p) (p_used p) (w_rlim e - p_rgas p) (w_plim e - p_pgas p),
+                    Ok (mkRes (p_fee p) (p_etxs p) (p_used p - w_used e) (wi_spent ia) (p_creates p)))
+          end
+      end
+  end.
+
+(* commitTransactions: "emits too many" / "double spends" / "combine smaller denominations" /
+   "uses too much gas" / ErrGasLimitReached leave firstQiTx untouched (continue before the assignment) *)
+Definition w_retry (e : N) : bool :=
+  existsb (N.eqb e) [27; 28; 37; 17; 40; 42; 6; 39; 38].
+
+Fixpoint worker_txs (c : ctx) (l : ledger) (first : bool) (e : wenv) (txs : list tx) : list (option txres) * wenv :=
+  match txs with
+  | [] => ([], e)
+  | t :: r =>
+      match worker_qi c l first e t with
+      | (e', Ok res) => let '(vs, ef) := worker_txs c l false e' r in (Some res :: vs, ef)
+      | (e', Err err _) =>
+          let '(vs, ef) := worker_txs c l (if w_retry err then first else false) e' r in (None :: vs, ef)
+      end
+  end.
+
+Definition init_wenv (c : ctx) : wenv := mkW [] (c_gaslimit c) 0 (c_rlim c) (c_plim c).
+
+Fixpoint accepted_txs (txs : list tx) (vs : list (option txres)) : list tx :=
+  match txs, vs with
+  | t :: r, Some _ :: vr => t :: accepted_txs r vr
+  | _ :: r, None :: vr => accepted_txs r vr
+  | _, _ => []
+  end.
+
+(* ------------------------------------------------------------------ correspondence check *)
+
+Record txobs := mkObs {
+  ob_fee : N; ob_gas : N; ob_removed : N; ob_added : N;
+  ob_etxs : list etx; ob_spent : list key; ob_created : list key
+}.
+
+Definition list_eqb {A B} (f : A -> B -> bool) : list A -> list B -> bool :=
+  fix go a b := match a, b with
+                | [], [] => true
+                | x :: a', y :: b' => f x y && go a' b'
+                | _, _ => false
+                end.
+Definition utxo_eqb (a b : utxo) : bool :=
+  (u_den a =? u_den b) && keqb (u_owner a) (u_owner b) && (u_lock a =? u_lock b).
+Definition etx_eqb (a b : etx) : bool :=
+  (e_type a =? e_type b) && keqb (e_to a) (e_to b) && (e_value a =? e_value b)
+  && (e_index a =? e_index b) && (e_gas a =? e_gas b).
+Definition ledger_eqb : ledger -> ledger -> bool :=
+  list_eqb (fun a b => keqb (fst a) (fst b) && utxo_eqb (snd a) (snd b)).
+
+Definition res_matches (r : txres) (o : txobs) : bool :=
+  (r_fee r =? ob_fee o) && (r_gas r =? ob_gas o)
+  && (sum_den (map (fun kv => u_den (snd kv)) (r_spent r)) =? ob_removed o)
+  && (sum_den (map (fun kv => u_den (snd kv)) (r_created r)) =? ob_added o)
+  && list_eqb etx_eqb (r_etxs r) (ob_etxs o)
+  && list_eqb keqb (map fst (r_spent r)) (ob_spent o)
+  && list_eqb keqb (map fst (r_created r)) (ob_created o).
+
+(* observation of one block on one backend: accepted prefix, verdict, 'ut' records afterwards *)
+Definition blockobs := (list txobs * bool * ledger)%type.
+Definition block_matches (m : list txres * bool * ledger) (o : blockobs) : bool :=
+  let '(rs, ok, l) := m in
+  let '(os, ok', l') := o in
+  list_eqb res_matches rs os && Bool.eqb ok ok' && ledger_eqb l l'.
+
+Inductive case_body :=
+(* a chain of blocks through ProcessQiTx with batch.SetPending(tracks); one observation list per backend *)
+| CProc (tracks : bool) (base : ledger) (blocks : list (ctx * list tx)) (obs : list (list blockobs))
+(* one pending block through the worker: verdict per tx (with observation when accepted), final env,
+   and ValidateQiTxInputs' verdict for each tx against the same database *)
+| CWorker (base : ledger) (c : ctx) (txs : list tx) (verdicts : list (option txobs))
+          (gp used rlim plim : N) (mempool : list bool).
+
+Definition case := (N * case_body)%type.
+
+Definition wverdict_matches (m : option txres) (o : option txobs) : bool :=
+  match m, o with
+  | None, None => true
+  | Some r, Some ob => res_matches r ob
+  | _, _ => false
+  end.
+
+Definition case_ok (cs : case) : bool :=
+  match snd cs with
+  | CProc tracks base blocks obs =>
+      sortedb base &&
+      let m := run_chain tracks base blocks in
+      forallb (fun o => list_eqb block_matches m o) obs
+  | CWorker base c txs verdicts gp used rlim plim mempool =>
+      sortedb base &&
+      let '(vs, e) := worker_txs c base true (init_wenv c) txs in
+      list_eqb wverdict_matches vs verdicts
+      && (w_gp e =? gp) && (w_used e =? used) && (w_rlim e =? rlim) && (w_plim e =? plim)
+      && list_eqb Bool.eqb (map (validate_inputs c base) txs) mempool
+  end.
+
+Definition mismatches (cs : list case) : list N :=
+  map fst (filter (fun c => negb (case_ok c)) cs).
